@@ -106,6 +106,19 @@ inductive ER
   | inf
 deriving DecidableEq, Repr, Inhabited
 
+instance : Add ER := ⟨fun a b => match a, b with | .fin x, .fin y => .fin (x + y) | _, _ => .inf⟩
+
+instance : LT ER := ⟨fun a b => match a, b with | .fin x, .fin y => x < y | .fin _, .inf => True | .inf, _ => False⟩
+
+instance : DecidableRel (α := ER) (· < ·) := fun a b => by
+  cases a <;> cases b <;> simp only [LT.lt] <;> infer_instance
+
+/-- `min(a, b)` of Python: `b` only if it is strictly smaller -/
+instance : Min ER := ⟨fun a b => if b < a then b else a⟩
+
+/-- `max(a, b)` of Python: `b` only if it is strictly greater -/
+instance : Max ER := ⟨fun a b => if a < b then b else a⟩
+
 /-- `Operation.index` of hrevolve_sequences: a pair (`[n0, n1]`, `[level, n]`) or a plain integer -/
 inductive PyIdx
   | pair (a b : Int)
